@@ -84,6 +84,9 @@ enum FuncKind {
     },
     TaskBlock {
         task_block: Rc<Expr>,
+        // as for a lambda: how the body learns the instantiation of the enclosing function
+        capture_types: Vec<SolvedType>,
+        capture_types_concrete: Vec<SolvedType>,
     },
     IntrinsicWrapper(IntrinsicOperation, AstNode),
     ForeignFunctionWrapper {
@@ -453,21 +456,21 @@ impl Translator {
                         }
                         FuncKind::TaskBlock {
                             task_block: e,
-                            // capture_types,
-                            // capture_types_concrete,
+                            capture_types,
+                            capture_types_concrete,
                         } => {
                             let ExprKind::TaskBlock(body) = &*e.kind else { unreachable!() };
 
                             let out_ty = self.statics.solution_of_node(e.node()).unwrap();
                             let func_ty = SolvedType::Function(vec![], out_ty.into());
                             let mono_for_lambda = MonomorphEnv::empty();
-                            // if capture_types.iter().any(|ty| ty.is_overloaded()) {
-                            //     for (overloaded_ty, ty_concrete) in
-                            //         capture_types.iter().zip(capture_types_concrete.iter())
-                            //     {
-                            //         mono_for_lambda.update(overloaded_ty, ty_concrete);
-                            //     }
-                            // }
+                            if capture_types.iter().any(|ty| ty.is_overloaded()) {
+                                for (overloaded_ty, ty_concrete) in
+                                    capture_types.iter().zip(capture_types_concrete.iter())
+                                {
+                                    mono_for_lambda.update(overloaded_ty, ty_concrete);
+                                }
+                            }
                             self.translate_func_body_helper(
                                 st,
                                 mono_for_lambda,
@@ -1189,10 +1192,23 @@ impl Translator {
 
                 let (_, captures, _locals) =
                     self.calculate_args_captures_locals(&overload_ty, &[], body, mono);
+                // see ExprKind::AnonymousFunction
+                let (_, typed_captures, _) =
+                    self.calculate_args_captures_locals(&None, &[], body, &MonomorphEnv::empty());
 
                 let desc = FuncDesc {
                     kind: FuncKind::TaskBlock {
                         task_block: expr.clone(),
+                        capture_types: typed_captures
+                            .iter()
+                            .cloned()
+                            .map(|capture| self.statics.solution_of_node(capture).unwrap())
+                            .collect(),
+                        capture_types_concrete: typed_captures
+                            .iter()
+                            .cloned()
+                            .map(|capture| self.get_ty(mono, capture).unwrap())
+                            .collect(),
                     },
                     overload_ty: overload_ty.clone(),
                 };
@@ -2776,11 +2792,12 @@ impl Translator {
             std::collections::hash_map::Entry::Occupied(o) => o.get().clone(),
             std::collections::hash_map::Entry::Vacant(v) => {
                 st.funcs_to_generate.push(desc.clone());
-                // a lambda in a generic function is generated once per instantiation of what it
-                // captures, even if its own type does not mention a type parameter
+                // a lambda or task in a generic function is generated once per instantiation of
+                // what it captures, even if its own type does not mention a type parameter
                 let captures_overloaded = matches!(
                     &desc.kind,
                     FuncKind::AnonymousFunc { capture_types, .. }
+                    | FuncKind::TaskBlock { capture_types, .. }
                         if capture_types.iter().any(|ty| ty.is_overloaded())
                 );
                 let label = match &desc.overload_ty {
@@ -2793,6 +2810,10 @@ impl Translator {
                             swrite!(label_hint, "__%{monoty}");
                         }
                         if let FuncKind::AnonymousFunc {
+                            capture_types_concrete,
+                            ..
+                        }
+                        | FuncKind::TaskBlock {
                             capture_types_concrete,
                             ..
                         } = desc.kind
